@@ -378,6 +378,8 @@ impl Version {
                 Ok(sst.cursor())
             }
         }
+        // NOTE:  The caller prunes the merged stream at `timestamp`; see below.
+        let _ = timestamp;
         let mut cursors: Vec<Box<dyn Cursor>> = vec![];
         for sst in self.levels[0].ssts.iter() {
             let fm = Arc::clone(fm);
@@ -385,10 +387,10 @@ impl Version {
             let root = self.options.path.clone();
             let setsum = Setsum::from_digest(sst.setsum);
             let lazy = move || lazy_cursor(&fm, &sc, &root, setsum);
-            cursors.push(Box::new(PruningCursor::new(
-                LazyCursor::new(lazy),
-                timestamp,
-            )?));
+            // NOTE:  Components are merged unpruned.  Tombstones must survive until after the
+            // merge, or a delete in a newer component cannot shadow a value in an older one.
+            // The caller prunes the merged stream at `timestamp`.
+            cursors.push(Box::new(LazyCursor::new(lazy)));
         }
         fn bound_to_bound<U: AsRef<[u8]>>(u: &Bound<U>) -> Bound<&[u8]> {
             match u {
@@ -426,7 +428,7 @@ impl Version {
                     let root = self.options.path.clone();
                     let setsum = Setsum::from_digest(sst.setsum);
                     let lazy = move || lazy_cursor(&fm, &sc, &root, setsum);
-                    this_level_cursors.push(PruningCursor::new(LazyCursor::new(lazy), timestamp)?);
+                    this_level_cursors.push(LazyCursor::new(lazy));
                 }
             }
             if !this_level_cursors.is_empty() {
